@@ -102,6 +102,9 @@ pub enum CE {
     Name(String),
     /// source text of an expression known to succeed whose value the model does not compute
     Opaque(String),
+    /// the inner expression evaluated inside a function body (0), a do-block (1), a `via`
+    /// callback (2) or a conditional branch (3): same value, different evaluation context
+    Wrap(u8, Box<CE>),
 }
 
 #[derive(Clone, Debug, PartialEq, Serialize, Deserialize)]
@@ -160,6 +163,12 @@ pub fn ce_src(e: &CE) -> String {
         CE::Rec(f) => format!("{{{}}}", f.iter().map(|(k, v)| format!("{}: {}", key_src(k), ce_src(v))).collect::<Vec<_>>().join(", ")),
         CE::Name(n) => n.clone(),
         CE::Opaque(src) => src.clone(),
+        CE::Wrap(k, inner) => match k {
+            0 => format!("((zz) => {})(0)", ce_src(inner)),
+            1 => format!("do {{ zq = 1; return {} }}", ce_src(inner)),
+            2 => format!("([1] via ((zz) => {}))[0]", ce_src(inner)),
+            _ => format!("if 1 .< 2 then {} else 0", ce_src(inner)),
+        },
     }
 }
 
@@ -278,6 +287,7 @@ pub fn eval_ce(e: &CE, env: &[(String, JV)], inputs: &[(String, JV)]) -> Option<
         }
         CE::Name(n) => env.iter().find(|(k, _)| k == n).map(|(_, v)| v.clone())?,
         CE::Opaque(_) => JV::Opaque,
+        CE::Wrap(_, inner) => eval_ce(inner, env, inputs)?,
     })
 }
 
